@@ -514,6 +514,25 @@ def live(stmts):
     return out
 
 
+def plain_rebinds(stmts, name):
+    """every binding of `name` in stmts is a statement `name = e` / `name: T = e` directly in the statement lists of (nested) ifs"""
+    def stores(node):
+        return any(isinstance(n, ast.Name) and n.id == name and isinstance(n.ctx, ast.Store) for n in ast.walk(node))
+    for st in stmts:
+        if isinstance(st, ast.AnnAssign) and st.value is not None and st.simple and isinstance(st.target, ast.Name):
+            if stores(st.value):
+                return False
+        elif isinstance(st, ast.Assign) and len(st.targets) == 1 and isinstance(st.targets[0], ast.Name):
+            if stores(st.value):
+                return False
+        elif isinstance(st, ast.If):
+            if stores(st.test) or not plain_rebinds(st.body, name) or not plain_rebinds(st.orelse, name):
+                return False
+        elif stores(st):
+            return False
+    return True
+
+
 def assigns_in(stmts):
     """does this statement list bind a local (on a path that can fall through to what follows)?"""
     for st in stmts:
@@ -529,7 +548,7 @@ def block(stmts, var, k, env=None):
     if not stmts:
         return k
     s, rest = stmts[0], stmts[1:]
-    if isinstance(s, ast.Expr) and isinstance(s.value, ast.Constant):
+    if (isinstance(s, ast.Expr) and isinstance(s.value, ast.Constant)) or isinstance(s, ast.Pass):
         return block(rest, var, k, env)
     if isinstance(s, ast.AnnAssign) and s.value is not None and isinstance(s.target, ast.Name) and s.simple:
         s = ast.Assign(targets=[s.target], value=s.value)        # `x: T = v` binds like `x = v` (the annotation of a local is not evaluated)
@@ -551,9 +570,14 @@ def block(stmts, var, k, env=None):
         # raise (object_[0] on an empty list): the translation forces its evaluation at the same point with a branch whose two arms
         # are the same continuation, so an error of the binding is an error of the hook in the model as well.
         name = s.targets[0].id
-        if any(isinstance(n, ast.Name) and n.id == name and isinstance(n.ctx, ast.Store) for st in live(rest) for n in ast.walk(st)):
-            raise Reject("local %s assigned more than once" % name)
         val = fold(subst(s.value, env))
+        if any(isinstance(n, ast.Name) and n.id == name and isinstance(n.ctx, ast.Store) for st in live(rest) for n in ast.walk(st)):
+            # re-binding is followed only in its simplest form: the FIRST value is a constant (cannot raise, nothing to force) and every later
+            # binding is a plain `name = ...` statement at the top level of nested if-statements.  block() walks statements in execution
+            # order and splits the paths at every `if` that binds a local (assigns_in), so on each path the environment holds the binding
+            # that is current there; the bound value is substituted (with the environment of ITS binding point) where it is read.
+            if not (is_literal(val) and plain_rebinds(live(rest), name)):
+                raise Reject("local %s assigned more than once" % name)
         if is_literal(val):
             return block(rest, var, k, dict(env, **{name: val}))       # a constant cannot raise: nothing to force
         is_cond = True
